@@ -245,6 +245,21 @@ impl Property for Soundness {
                 let program = matrix::unary_program(x.ty, UNARY[idx("t") % UNARY.len()]);
                 self.check_function(&program, &[x.values], stats)
             }
+            "filter-to" => {
+                // a type filter for every catalogue type (and types built from it), pulled past its end: the
+                // filler an exhausted filter yields belongs to the type asked for
+                let t = matrix::operand(idx("t")).ty;
+                let wrapped = match idx("w") {
+                    0 => t.to_string(),
+                    1 => format!("[{t}]"),
+                    2 => format!("(int, {t})"),
+                    3 => format!("struct{{f: {t}}}"),
+                    _ => format!("mut {}", if t.contains('|') && !t.contains("->") || t.starts_with("mut ") { format!("({t})") } else { t.to_string() }),
+                };
+                let any = CATALOGUE.iter().find(|o| o.ty == "any").map(|o| o.values).unwrap_or(&[]);
+                let program = format!("f := (x: any) -> any {{ it := [x, x]~ ? {wrapped}; a := it(); b := it(); c := it(); return (a, b, c); }}");
+                self.check_function(&program, &[any], stats)
+            }
             "infix" => {
                 let (x, y) = (matrix::operand(idx("x")), matrix::operand(idx("y")));
                 let program = matrix::infix_program(x.ty, y.ty, INFIX[idx("op") % INFIX.len()]);
@@ -427,6 +442,11 @@ pub fn run(session: &Session, prop: &'static Soundness) -> i32 {
     for x in 0..CATALOGUE.len() {
         for t in (0..UNARY.len()).step_by(2) {
             cases.push(json!({"kind": "unary-own", "x": x, "t": t}));
+        }
+    }
+    for t in 0..CATALOGUE.len() {
+        for w in 0..5 {
+            cases.push(json!({"kind": "filter-to", "t": t, "w": w}));
         }
     }
     // every pure std function applied to parameters of the catalogue types: the declared result
